@@ -285,6 +285,19 @@ def fileHead (si : SInfo) (total : Nat) (md5 : List Nat) (minBlock : Nat) : List
     ++ natToBits 3 (si.channels - 1) ++ natToBits 5 (si.bps - 1) ++ natToBits 36 total
   [0x66, 0x4C, 0x61, 0x43, 0x80, 0, 0, 34] ++ bitsToBytes bits ++ md5
 
+/-- the bytes of a mutated frame: the model serializer's output, except for classes that are not expressible as a `Frame` value -
+    `coded-number-continuation`: the second byte of the two-byte coded number gets top bits `00`, `01` or `11` instead of `10`, and both
+    checksums are recomputed so that only the coded number is wrong -/
+def serializeMutated (fr : Frame) (cls : String) : List Nat :=
+  let bytes := Spec.serialize fr
+  if cls != "coded-number-continuation" then bytes else
+  let hlen := (bitsToBytes (writeHeaderFields fr.hdr)).length
+  let form := [0x00, 0x40, 0xC0].getD (fr.hdr.number % 3) 0
+  let b1 := bytes.set 5 (bytes.getD 5 0 % 64 + form)
+  let b2 := b1.set hlen (crc8 (b1.take hlen))
+  let body := b2.take (b2.length - 2)
+  body ++ [crc16 body / 256, crc16 body % 256]
+
 end Flac.Gen2
 
 namespace Flac.Gen2
@@ -306,10 +319,14 @@ def mutateFrame0 (m : Made) : G (Frame × String × Bool) := do
   let nsub := f.subs.length
   let i ← below (max nsub 1)
   let depth := subBps f.hdr.assign f.hdr.bps i
-  let kind ← below 24
+  let kind ← below 26
   let setHdr (h : Header) : Frame := { f with hdr := h }
   let setSub (g : Subframe → Subframe) : Frame := { f with subs := mapNth f.subs i g }
   match kind with
+  | 24 | 25 => do
+      -- a two-byte coded number whose continuation byte is later rewritten (in `serializeMutated`) to one that does not start with `10`
+      let v ← below 1900
+      pure (setHdr { f.hdr with number := 128 + v, numberBytes := 2 }, "coded-number-continuation", true)
   | 22 => pure (setHdr { f.hdr with bsCode := 7, blockSize := 65536 }, "block-size-field-ffff", false)
   | 23 => do
       let big ← chance 1 2
